@@ -37,14 +37,22 @@ pub enum Step {
     Start { kind: OpKind, faults: Vec<Fault>, outcome: Outcome },
     /// Poll operation `op` (index mapped onto the live operations).
     Poll { op: u16, fresh_waker: bool },
-    /// Drop operation `op`.
-    DropOp { op: u16 },
+    /// Drop operation `op`; `cancel` scripts how the kernel answers the
+    /// cancellation request this may cause.
+    DropOp { op: u16, cancel: CancelChoice },
     /// One kernel action outside of any system call.
     Kernel(KAct),
     /// `Ring::poll`; `inline` kernel actions run inside `io_uring_enter`
     /// (after consumption), `block` asks for `poll(None)` when the model knows
     /// a completion is deliverable.
     RingPoll { inline: Vec<KAct>, block: bool },
+}
+
+#[derive(Copy, Clone, Debug, Serialize, Deserialize, PartialEq, Eq)]
+pub enum CancelChoice {
+    Wins,
+    Already,
+    NotFound,
 }
 
 #[derive(Clone, Debug, Serialize, Deserialize)]
@@ -122,6 +130,10 @@ struct MOp {
     state_serial: Option<u64>,
     resource_serial: Option<u64>,
     dropped_while_running: bool,
+    submit_order: u64,
+    /// Wakers registered for queue space by earlier polls of this (still
+    /// blocked) operation that were since replaced: (waker, wakes at poll).
+    stale_blocked: Vec<(WakerHandle, u64)>,
 }
 
 pub struct Exec<'a> {
@@ -141,6 +153,9 @@ pub struct Exec<'a> {
     // Feature flags for the fingerprint.
     pub feats: BTreeSet<String>,
     stop: bool,
+    /// Scripted answers to cancellation requests, keyed by target user_data.
+    cancel_script: std::sync::Arc<std::sync::Mutex<BTreeMap<u64, CancelChoice>>>,
+    submit_order: u64,
 }
 
 struct ExecPtr(*mut ());
@@ -172,6 +187,21 @@ impl<'a> Exec<'a> {
             consumed_sqes: Vec::new(),
             feats: BTreeSet::new(),
             stop: false,
+            cancel_script: {
+                let script: std::sync::Arc<std::sync::Mutex<BTreeMap<u64, CancelChoice>>> = Default::default();
+                let s2 = script.clone();
+                sim::sim().cancel_hook = Some(Box::new(move |_ring, req, target| {
+                    let choice = s2.lock().unwrap().remove(&req.sqe.addr).unwrap_or(CancelChoice::Wins);
+                    match (choice, target) {
+                        (_, None) => sim::CancelOutcome::NotFound,
+                        (CancelChoice::Wins, Some(_)) => sim::CancelOutcome::Wins,
+                        (CancelChoice::Already, Some(_)) => sim::CancelOutcome::Already,
+                        (CancelChoice::NotFound, Some(_)) => sim::CancelOutcome::NotFound,
+                    }
+                }));
+                script
+            },
+            submit_order: 0,
         })
     }
 
@@ -270,7 +300,7 @@ impl<'a> Exec<'a> {
                     if hold.what == "op-state" {
                         if self.oracles.c06 || self.oracles.c01 {
                             let p = if self.oracles.c06 { "C06" } else { "C01" };
-                            self.violation(&format!("{p}:state-freed-early"), format!("operation state block {:#x} freed before its final completion was processed", block.addr));
+                            self.violation(&format!("{p}:state-freed-early"), format!("operation state block {:#x} (hold of request {} taken at {:#x}) freed before its final completion was visible to user space", block.addr, hold.id & !(1 << 62), hold.addr));
                         }
                     } else if self.oracles.c01 {
                         self.violation(
@@ -314,10 +344,14 @@ impl<'a> Exec<'a> {
         if self.stop {
             return;
         }
+        if trace_on() {
+            let (h, t, ch, ct, _) = self.ring_words();
+            eprintln!("STEP {step:?}  [sq {h:#x}..{t:#x} cq {ch:#x}..{ct:#x}]");
+        }
         match step {
             Step::Start { kind, faults, outcome } => self.start(kind, faults, outcome),
             Step::Poll { op, fresh_waker } => self.poll(*op, *fresh_waker),
-            Step::DropOp { op } => self.drop_op(*op),
+            Step::DropOp { op, cancel } => self.drop_op(*op, *cancel),
             Step::Kernel(act) => {
                 self.sync_events();
                 let mut s = sim::sim();
@@ -380,6 +414,8 @@ impl<'a> Exec<'a> {
             state_serial: None,
             resource_serial,
             dropped_while_running: false,
+            submit_order: 0,
+            stale_blocked: Vec::new(),
         });
     }
 
@@ -426,7 +462,12 @@ impl<'a> Exec<'a> {
             _ => unreachable!(),
         };
         if fresh_waker && op.polled {
-            self.ops[i].waker = WakerHandle::new();
+            let old = std::mem::replace(&mut self.ops[i].waker, WakerHandle::new());
+            if self.ops[i].blocked && self.ops[i].phase == Phase::NotSubmitted {
+                let at = self.ops[i].wakes_at_poll;
+                self.ops[i].stale_blocked.push((old, at));
+                self.feat("blocked-waker-replaced");
+            }
             self.feat("waker-replaced");
         }
         let op = &mut self.ops[i];
@@ -441,6 +482,9 @@ impl<'a> Exec<'a> {
         };
         let (_, tail_after, _, _, _) = self.ring_words();
         let published = tail_after.wrapping_sub(tail);
+        if trace_on() {
+            eprintln!("   poll op {i}: predicted {predict:?}, got {}, published {published}, wakes {}", match &result { Ok(Poll::Pending) => "Pending".to_string(), Ok(Poll::Ready(o)) => format!("Ready({o:?})"), Err(e) => format!("panic {e:?}") }, self.ops[i].waker.wakes());
+        }
         let result = match result {
             Ok(r) => r,
             Err((msg, loc)) => {
@@ -469,7 +513,13 @@ impl<'a> Exec<'a> {
         }
         if let Some(sqe) = new_sqes.first().copied() {
             self.accepted.push((i, sqe));
+            if tail_after < tail {
+                self.feat("sq-wrapped");
+            }
+            self.submit_order += 1;
+            let order = self.submit_order;
             let op = &mut self.ops[i];
+            op.submit_order = order;
             op.attempts += 1;
             op.published.push(sqe);
             let first = op.attempts == 1;
@@ -495,6 +545,7 @@ impl<'a> Exec<'a> {
             op.final_consumed = false;
             op.st.expect = None;
             op.blocked = false;
+            op.stale_blocked.clear();
             if self.oracles.c04 {
                 if sqe.user_data < 4 || sqe.user_data & !1 == 0 {
                     self.violation("C04:bad-user-data", format!("operation submission carries reserved user_data {:#x}", sqe.user_data));
@@ -640,7 +691,7 @@ impl<'a> Exec<'a> {
         }
     }
 
-    fn drop_op(&mut self, raw: u16) {
+    fn drop_op(&mut self, raw: u16, cancel: CancelChoice) {
         let candidates = self.live_indices(|o| o.fut.is_some());
         if candidates.is_empty() {
             self.ctx.skipped_steps += 1;
@@ -666,6 +717,16 @@ impl<'a> Exec<'a> {
             _ => "other",
         };
         self.feat(format!("drop@{point}"));
+        if point == "blocked" && self.ops[i].blocked {
+            let h = self.ops[i].waker.clone();
+            let at = self.ops[i].wakes_at_poll;
+            self.ops[i].stale_blocked.push((h, at));
+            self.ops[i].blocked = false;
+            self.feat("blocked-op-dropped");
+        }
+        if running {
+            self.cancel_script.lock().unwrap().insert(self.ops[i].user_data, cancel);
+        }
         let fut = self.ops[i].fut.take();
         let r = {
             let _s = track::scope(track::TAG_A10);
@@ -711,6 +772,9 @@ impl<'a> Exec<'a> {
         if running {
             self.ops[i].dropped_while_running = true;
             self.feat("dropped-while-running");
+            if !full {
+                self.feat(format!("cancel:{cancel:?}"));
+            }
             if full {
                 self.feat("drop-with-full-queue");
             }
@@ -762,6 +826,10 @@ impl<'a> Exec<'a> {
                 };
                 if is_fault {
                     self.feat("fault");
+                }
+                let my_order = self.ops[i].submit_order;
+                if self.ops.iter().any(|o| o.phase == Phase::Submitted && o.serial.is_some() && o.final_seq.is_none() && !o.final_skipped && o.submit_order < my_order) {
+                    self.feat("out-of-order");
                 }
                 let seq = ring.complete(serial, res, flags, false);
                 let op = &mut self.ops[i];
@@ -819,7 +887,7 @@ impl<'a> Exec<'a> {
         self.update_consumed();
         let (_, _, cq_head_before, cq_tail_before, _) = self.ring_words();
         let blocked_before: Vec<usize> = self.live_indices(|o| o.blocked && o.phase == Phase::NotSubmitted && o.fut.is_some());
-        let blocked_wakes: Vec<u64> = blocked_before.iter().map(|&i| self.ops[i].waker.wakes()).collect();
+        let blocked_wakes: Vec<u64> = blocked_before.iter().map(|&i| self.ops[i].wakes_at_poll).collect();
 
         // Kernel actions that run inside io_uring_enter.
         let this = ExecPtr((self as *mut Exec<'a>).cast());
@@ -862,6 +930,10 @@ impl<'a> Exec<'a> {
             Ok(Ok(())) => {}
         }
         let (sq_head, sq_tail, cq_head, cq_tail, entries) = self.ring_words();
+        if trace_on() {
+            let w: Vec<(usize, u64, u64)> = blocked_before.iter().map(|&i| (i, self.ops[i].wakes_at_poll, self.ops[i].waker.wakes())).collect();
+            eprintln!("   ring poll done: sq {sq_head:#x}..{sq_tail:#x} cq {cq_head:#x}..{cq_tail:#x}; blocked (op, wakes at poll, wakes now) {w:?}");
+        }
         if self.oracles.c05 && cq_head != cq_tail {
             // Nothing was posted after a10 loaded the tail (the hook runs
             // inside enter, before the load), so everything must be consumed.
@@ -892,6 +964,10 @@ impl<'a> Exec<'a> {
         if self.oracles.c03 {
             for &i in &newly {
                 let op = &self.ops[i];
+                if op.phase == Phase::Submitted && op.polled && op.fut.is_some() {
+                    self.feats.insert("completion-while-pending".into());
+                }
+                let op = &self.ops[i];
                 if op.phase == Phase::Submitted && op.polled && op.fut.is_some() && op.waker.wakes() <= op.wakes_at_poll {
                     self.violation("C03:completion-not-woken", format!("Ring::poll consumed the final completion of operation {i} ({}) but the waker of its most recent poll was not invoked", self.ops[i].st.kind.name()));
                 }
@@ -903,10 +979,30 @@ impl<'a> Exec<'a> {
                 let woken = blocked_before.iter().zip(&blocked_wakes).filter(|(i, w)| self.ops[**i].waker.wakes() > **w).count();
                 let need = available.min(blocked_before.len());
                 if woken < need {
+                    // Wake-ups that went to a stale waker: one the operation
+                    // has since replaced, or one of an operation that was
+                    // dropped while waiting (a10 keeps every registered waker
+                    // in its list).
+                    let mut stale_woken = 0usize;
+                    for op in &self.ops {
+                        stale_woken += op.stale_blocked.iter().filter(|(h, at)| h.wakes() > *at).count();
+                    }
+                    // ... or to a duplicate entry of an operation that was
+                    // polled more than once while waiting (it is woken twice).
+                    for (k, &i) in blocked_before.iter().enumerate() {
+                        stale_woken += (self.ops[i].waker.wakes().saturating_sub(blocked_wakes[k]) as usize).saturating_sub(1);
+                    }
+                    let sig = if woken + stale_woken >= need { "C03:queue-space-not-woken:stale-or-duplicate-blocked-entry" } else { "C03:queue-space-not-woken" };
+                    let known = self.ctx.is_known(sig);
                     self.violation(
-                        "C03:queue-space-not-woken",
-                        format!("after Ring::poll {available} submission slots are free but only {woken} of {} operations waiting for a slot were woken (need {need})", blocked_before.len()),
+                        sig,
+                        format!("after Ring::poll {available} submission slots are free but only {woken} of {} operations waiting for a slot had the waker of their most recent poll invoked (need {need}; {stale_woken} wake-ups went to stale or duplicate entries: replaced wakers, wakers of dropped operations, second registrations of the same operation)", blocked_before.len()),
                     );
+                    // Excluded by construction when known: the stale handles
+                    // stay on record, so later checks in this history that
+                    // are short by the wake-ups they absorbed are attributed
+                    // to the same finding.
+                    let _ = known;
                 }
                 self.feat("blocked-woken");
             }
@@ -983,12 +1079,19 @@ impl<'a> Exec<'a> {
         self.update_consumed();
         let _ = catch(|| self.world.drop_sq());
         self.audit_tracker();
-        if (self.oracles.c06 || self.oracles.c01) && !self.stop {
+        if self.oracles.c06 && !self.stop {
             let leaks = track::live_since(self.world.mark);
             if !leaks.is_empty() {
                 let p = if self.oracles.c06 { "C06" } else { "C01" };
                 let desc: Vec<String> = leaks.iter().take(4).map(|b| format!("{:#x}+{} tag {}", b.addr, b.size, b.tag)).collect();
-                self.violation(&format!("{p}:leak-at-end"), format!("{} blocks allocated during the history are still live after everything was dropped: {}", leaks.len(), desc.join(", ")));
+                // Completions still sitting in the kernel's overflow list when
+                // the Ring was dropped were never delivered.
+                let overflowed = sim::sim().rings.iter().any(|r| r.fd == self.world.ring_fd && !r.overflow.is_empty());
+                let sig = if overflowed { format!("{p}:leak-at-end:cq-overflow-at-ring-drop") } else { format!("{p}:leak-at-end") };
+                if overflowed {
+                    self.feat("cq-overflow-at-ring-drop");
+                }
+                self.violation(&sig, format!("{} blocks allocated during the history are still live after everything was dropped: {}", leaks.len(), desc.join(", ")));
                 track::forget_since(self.world.mark);
             }
         } else {
@@ -996,6 +1099,36 @@ impl<'a> Exec<'a> {
         }
         self.feats.clone()
     }
+}
+
+pub fn trace_on() -> bool {
+    static ON: std::sync::OnceLock<bool> = std::sync::OnceLock::new();
+    *ON.get_or_init(|| std::env::var_os("A10VERIF_TRACE").is_some())
+}
+
+/// A fixed history touching every operation kind; run before the first case
+/// so that one-time lazy allocations fall outside every case epoch.
+pub fn warmup() {
+    use crate::interp::ops::{OpKind, Outcome};
+    let kinds = [OpKind::Truncate, OpKind::WriteStatic { len: 10 }, OpKind::WriteVec { len: 10 }, OpKind::ReadVec { cap: 32, prefill: 2 }];
+    let mut steps = Vec::new();
+    for k in &kinds {
+        steps.push(Step::Start { kind: k.clone(), faults: vec![Fault::Eintr], outcome: Outcome::Ok { frac: 30000 } });
+    }
+    for round in 0..4 {
+        for i in 0..kinds.len() {
+            steps.push(Step::Poll { op: ((i * 65536) / kinds.len()) as u16, fresh_waker: round == 1 });
+        }
+        steps.push(Step::RingPoll { inline: vec![KAct::Complete { op: 0 }, KAct::Complete { op: 30000 }, KAct::Book { ud: 1, res: 0, flags: 0 }], block: round % 2 == 0 });
+        steps.push(Step::Kernel(KAct::Complete { op: 0 }));
+    }
+    steps.push(Step::DropOp { op: 0, cancel: CancelChoice::Wins });
+    let h = History { cfg: RingCfg::simple(1), steps };
+    for _ in 0..2 {
+        let mut ctx = Ctx::new("warmup", &[], crate::common::Tier::Quick);
+        let _ = execute(&h, Oracles::default(), &mut ctx);
+    }
+    track::take_events();
 }
 
 /// Run a whole history.
